@@ -1345,6 +1345,11 @@ def rule_dispatch(ctx, repo):
     ctx.check(good, "R5", "make_reduction:lookup-arguments",
               "the registry is indexed with the validated (or inferred) scitype and the validated strategy, in their roles",
               "the registry lookup receives %r" % (gets,), locm)
+    inferred = [g for g in gets if isinstance(g.get("scitype"), Opq) and g["scitype"].tag == "inferred-scitype"]
+    infs = seen.get("_infer_scitype", [])
+    ctx.check((bool(inferred) and bool(infs) and all(i.get("estimator") == P.get("estimator") for i in infs)) if gets else None,
+              "R5", "make_reduction:infer-resolved", "scitype='infer' is resolved from the estimator before the lookup",
+              "the registry is never indexed with a scitype inferred from the estimator ('infer' is not a registry key)", locm)
     rets = [o[1] for s, o in traces if o[0] == "return"]
     calls = [n for n in ast.walk(mr) if isinstance(n, ast.Call) and isinstance(n.func, ast.Name)
              and any(isinstance(v, ast.Call) and dotted(v.func) == "_get_forecaster" for v in astq.assigned_values(mr, n.func.id))]
@@ -1377,9 +1382,9 @@ def run(ctx):
     rule_r1(ctx, repo)
     rule_last_window(ctx, repo)
     rule_reducers(ctx, repo, classes)
-    # instance counts on commit 132f3d5 (+ fix 7857d98): R1 50, R2 170, R3 80, R4 124, R5 18
+    # instance counts on commit 132f3d5 (+ fix 7857d98): R1 54, R2 184, R3 80, R4 124, R5 19
     ctx.floor("R1", 48)
     ctx.floor("R2", 150)
     ctx.floor("R3", 70)
     ctx.floor("R4", 110)
-    ctx.floor("R5", 18)
+    ctx.floor("R5", 19)
